@@ -9,7 +9,8 @@ package innerring
 //
 // The monitor generates notary requests whose scripts hold 1..3 calls (registered and
 // unregistered contracts and methods, valid and invalid content, argument shape changes),
-// with mutated signers / witnesses / attributes / fallbacks, sends them through the real
+// with mutated signers / witnesses (all combinations of invocation and verification script
+// forms of the proxy and Notary witnesses) / attributes / fallbacks, sends them through the real
 // listener (preparator -> parser -> handler) into the real container, netmap and reputation
 // processors of an alphabet node and judges every recorded NotarySignAndInvokeTX.
 
@@ -563,13 +564,46 @@ var vf34Muts = []vf34Mut{
 	{"attribute-of-other-type", func(o *vf34ReqOpts, _ uint32) { o.AttrMode = 2 }, true},
 	{"extra-witness", func(o *vf34ReqOpts, _ uint32) { o.ExtraWitness = true }, true},
 	{"extra-signer", func(o *vf34ReqOpts, _ uint32) { o.ExtraSigner = true }, true},
-	{"proxy-witness-not-empty", func(o *vf34ReqOpts, _ uint32) { o.ProxyWitness = true }, true},
 	{"invoker-witness-empty", func(o *vf34ReqOpts, _ uint32) { o.EmptyInvoker = true }, true},
-	{"notary-placeholder-with-verification", func(o *vf34ReqOpts, _ uint32) { o.BadNotaryWit = true }, true},
-	{"notary-placeholder-with-signature", func(o *vf34ReqOpts, _ uint32) { o.NotaryInvocBad = true }, true},
+	{"alphabet-witness-without-verification", func(o *vf34ReqOpts, _ uint32) { o.AlphaNoVer = true }, true},
 	{"fallback-valid-now", func(o *vf34ReqOpts, h uint32) { o.NVB = h }, true},
 	{"fallback-valid-long-ago", func(o *vf34ReqOpts, h uint32) { o.NVB = h - 7 }, true},
 	{"fallback-without-not-valid-before", func(o *vf34ReqOpts, _ uint32) { o.FBNoNVB = true }, true},
+}
+
+// Witness forms.  A witness has two fields; what makes it "empty" or "a placeholder" is a
+// statement about both.  The variations are therefore the full product of the forms of the
+// invocation script and of the verification script, for the proxy witness (well-formed:
+// both empty) and for the Notary placeholder (well-formed: no verification script and an
+// invocation script that is empty - current neo-go - or the legacy 64 zero bytes push).
+func init() {
+	for inv := vf34InvEmpty; inv < vf34InvForms; inv++ {
+		for ver := vf34VerifEmpty; ver < vf34VerifForms; ver++ {
+			good := ver == vf34VerifEmpty && (inv == vf34InvEmpty || inv == vf34InvDummy)
+			vf34Muts = append(vf34Muts, vf34Mut{
+				fmt.Sprintf("notary-witness(invocation=%s,verification=%s)", vf34InvNames[inv], vf34VerifNames[ver]),
+				func(o *vf34ReqOpts, _ uint32) { o.NotaryInv, o.NotaryVerif = inv, ver }, !good})
+		}
+	}
+	for _, inv := range []int{vf34InvEmpty, vf34InvDummy, vf34InvSig} {
+		for ver := vf34VerifEmpty; ver < vf34VerifForms; ver++ {
+			if inv == vf34InvEmpty && ver == vf34VerifEmpty {
+				continue // the unchanged request
+			}
+			vf34Muts = append(vf34Muts, vf34Mut{
+				fmt.Sprintf("proxy-witness(invocation=%s,verification=%s)", vf34InvNames[inv], vf34VerifNames[ver]),
+				func(o *vf34ReqOpts, _ uint32) { o.ProxyInv, o.ProxyVerif = inv, ver }, true})
+		}
+	}
+}
+
+func vf34WellFormedMuts() (n int) {
+	for _, m := range vf34Muts[1:] {
+		if !m.Bad {
+			n++
+		}
+	}
+	return n
 }
 
 // vf34Structure reads a request the way the statement describes it and lists what is
@@ -699,7 +733,7 @@ func TestVerif_C34(t *testing.T) {
 	defer r.Finish()
 	nWorlds := r.Pick(150, 1500)
 	perWorld := r.Pick(200, 400)
-	r.SetRule(fmt.Sprintf("%d seeded alphabet nodes x %d notary requests: script of 1-3 calls drawn from {the 14 expected (contract, method) pairs with valid or invalid content, the same arguments sent to a foreign contract / an unknown method / the method of another contract, argument shape changes}, biased towards createV2 followed by a second (and third) call; main transaction structure unchanged or with one of %d signer / witness / attribute / fallback variations (4 of them still well-formed); distinct = (script shape, per-call category+validity, structure variation, co-signed?) signatures", nWorlds, perWorld, len(vf34Muts)))
+	r.SetRule(fmt.Sprintf("%d seeded alphabet nodes x %d notary requests: script of 1-3 calls drawn from {the 14 expected (contract, method) pairs with valid or invalid content, the same arguments sent to a foreign contract / an unknown method / the method of another contract, argument shape changes}, biased towards createV2 followed by a second (and third) call; main transaction structure unchanged or with one of %d signer / witness / attribute / fallback variations (%d of them still well-formed; the proxy and Notary witnesses take every combination of invocation script form {empty, legacy dummy, signature, dummy cut, dummy with a bit set} and verification script form {empty, PUSHT, alphabet multisig}; unchanged requests carry the modern empty or the legacy dummy Notary placeholder); distinct = (script shape, per-call category+validity, structure variation, co-signed?) signatures", nWorlds, perWorld, len(vf34Muts)-1, vf34WellFormedMuts()))
 	r.Assume("expected calls = Container{put,putNamed,create,createV2,delete,remove,setEACL,putEACL,putReport,setAttribute,removeAttribute}, Netmap{addNode,updateState}, Reputation{put}; checked against the handlers the processors register")
 	r.Assume("required structure = signers and witnesses [proxy(empty witness), alphabet multisig of the current committee, optional invoker(non-empty witness), notary placeholder], exactly one NotaryAssisted attribute with NKeys = committee size (+1 with invoker), fallback with one NotValidBefore above the current block count; an alphabet witness that already carries signatures is allowed")
 	r.Assume("a call counts as validated iff its arguments are the ones the handler registered for that (contract, method) accepts (owner signature, known container, permitted eACL, container node, candidate accepted by the validator and HALT script, correctly signed trust of the right manager in a past epoch); setEACL and putEACL take the same arguments and rules")
